@@ -327,6 +327,11 @@ fn engines() -> Vec<EngineCase> {
     let cfg = GenCfg { ns: 2, rate: 16000, fperiod: 80, alpha: 0.42, ..GenCfg::default() };
     let e = engine_from_bytes(&cfg.bytes()).expect("generated voice loads");
     out.push(EngineCase { name: cfg.describe(), cond: e.condition.clone(), reference: RefCond::initial(16000, 80, 0.42, 2), nstream: 2 });
+    // a voice with a fourth stream (legal in the container; the engine synthesizes from the first three): "every
+    // stream index in range" then includes index 3
+    let cfg = GenCfg { ns: 4, rate: 16000, fperiod: 80, alpha: 0.42, ..GenCfg::default() };
+    let e = engine_from_bytes(&cfg.bytes()).expect("generated 4-stream voice loads");
+    out.push(EngineCase { name: cfg.describe(), cond: e.condition.clone(), reference: RefCond::initial(16000, 80, 0.42, 4), nstream: 4 });
     out
 }
 
@@ -334,7 +339,7 @@ pub fn run(tier: Tier) -> i32 {
     let rep: &'static Report = Box::leak(Box::new(Report::new("C20", tier, "model_checking")));
     let monitor = std::sync::Arc::new(HangMonitor::start(rep, "C20 setter history"));
     let depth: u8 = tier.pick(2, 3);
-    rep.set_rule("HIST (stateright BFS): all histories of real Condition setter calls up to the depth bound over the listed value alphabet, on V0 and a generated 2-stream voice, each call made on a copy of the previous state's Condition (which must stay as it was); states merged by (depth, Debug rendering of the real Condition); a state is non-trivial if it differs from the initial rendering; invariant: every getter equals the clamped reference after every call");
+    rep.set_rule("HIST (stateright BFS): all histories of real Condition setter calls up to the depth bound over the listed value alphabet, on V0, a generated 2-stream voice and a generated 4-stream voice, each call made on a copy of the previous state's Condition (which must stay as it was); states merged by (depth, Debug rendering of the real Condition); a state is non-trivial if it differs from the initial rendering; invariant: every getter equals the clamped reference after every call");
     rep.assume("f64 arguments are the 12-value alphabet {0,-0,±1,.5,1e-7,5e-324,±1e300,2,±24}; usize {0,1,2,48000,MAX}; other values are not explored");
     rep.assume("getter vs reference compared numerically (so -0.0 == 0.0), volume within 1e-9 dB");
     let mut total_states = 0u64;
@@ -385,7 +390,7 @@ pub fn run(tier: Tier) -> i32 {
             crate::elog!("MACHINERY: state counts differ between thread counts: {:?}", counts);
             return 2;
         }
-        rep.note(&format!("bounds_{}", if ec.nstream == 3 { "V0" } else { "G2" }), json!({"alphabet": acts.len(), "depth": depth, "unique_states": counts[0].0, "max_depth": counts[0].1}));
+        rep.note(&format!("bounds_{}", if ec.nstream == 3 { "V0" } else if ec.nstream == 2 { "G2" } else { "G4" }), json!({"alphabet": acts.len(), "depth": depth, "unique_states": counts[0].0, "max_depth": counts[0].1}));
     }
     rep.note("generated_states", json!(total_states));
     rep.guard(total_unique > 100, "fewer than 100 unique states");
